@@ -73,6 +73,8 @@ func init() {
 			Run: func(P *Program, R *Report) { cprngRule(P, R, "C07.e") }},
 		Rule{ID: "C07.f", Explain: "memoised commitments are per object: the caches of NonRevocationProofBuilder.Commit and rangeproof CommitmentsFromSecrets live in the receiver, and the single caller of the latter passes attribute and randomiser of the same builder and index.",
 			Run: func(P *Program, R *Report) { memoPerObjectRule(P, R) }},
+		Rule{ID: "C07.h", Explain: "aliasing discipline: randomisers and commitments held by builders are not overwritten in place (a response is computed into a fresh integer) - no function mutates in place a big.Int it reached through gabi.DisclosureProofBuilder / gabi.CredentialBuilder / gabi.NonRevocationProofBuilder / revocation.ProofCommit (math/big mutators write their receiver), except the tabled merge/refresh functions.",
+			Run: func(P *Program, R *Report) { inPlaceDisciplineRule(P, R, "C07.h", "gabi.DisclosureProofBuilder", "gabi.CredentialBuilder", "gabi.NonRevocationProofBuilder", "revocation.ProofCommit") }},
 		Rule{ID: "C07.g", Explain: "the revocation proof commitment draws r2, r3 and the four non-shared randomisers from distinct generator calls with the specified limits (symbolic terms); the shared alpha randomiser comes from the caller.",
 			Run: func(P *Program, R *Report) { revocationRandomizersRule(P, R) }},
 	)
